@@ -155,4 +155,19 @@ def modOK : ModD → Bool
 def okb : Bool := H.mods.all H.modOK
 
 end HSrc
+
+/-! ### flat descriptions (`FlatM.FlatSrc`): the name conditions `FlatSrc.check` does not contain -/
+
+def nets (S : FlatSrc) : List Nat := S.inputs ++ (S.outputs ++ S.locals)
+
+/-- what `emit_wf_flat` needs beyond `FlatSrc.check` (all about NAMES; evaluated per design by lean/Drv/C03Emit.lean): module,
+    instance, net and clock names are not reserved words; instance names are pairwise different and differ from every net
+    name and from the clock (instances share the module's name space) -/
+def namesOKb (S : FlatSrc) : Bool :=
+  !isKeyword S.top && S.regSrcs.all (fun r => !isKeyword r.mname && !isKeyword r.iname) &&
+  (nets S).all (fun k => !isKeyword (S.nm k)) && (S.regSrcs.isEmpty || !isKeyword S.clk) &&
+  decide ((S.regSrcs.map (·.iname)).Nodup) &&
+  S.regSrcs.all (fun r => decide (r.iname ≠ S.clk) && decide (r.iname ∉ (nets S).map S.nm))
+
+
 end C03Emit
